@@ -43,6 +43,11 @@ fn main() {
         "C08" => drive(props::c08::C08, rest),
         "C09" => drive(props::c09::C09::new(), rest),
         "C10" => drive(props::c10::C10, rest),
+        "C11" => drive(props::c11::C11, rest),
+        "C12" => drive(props::c12::C12, rest),
+        "C18" => drive(props::c18::C18, rest),
+        "C20" => drive(props::c20::C20, rest),
+        "c20-digest" => props::c20::digest_main(),
         "C19" => drive(props::c19::C19::new(), rest),
         "forms" => axverif::props::nat::forms_census(arg(rest, "--per-form").and_then(|s| s.parse().ok()).unwrap_or(400)),
         other => {
